@@ -28,7 +28,7 @@ LEVEL = "exploration"
 RULE = ("one case = one executed schedule of one scenario; distinct = distinct sequence of (actor, instruction) context switches; "
         "non-trivial = at least one preemption or timer expiry was injected between instructions of another actor")
 ASSUMPTIONS = ["one actor runs at a time (sequentially consistent interleavings of bytecode instructions; CPython's GIL gives no weaker behaviour)",
-               "preemption points are the instructions of router.py/location_table.py that read or write attributes, subscripts, call or test membership",
+               "preemption points are the instructions of router.py/location_table.py that read or write attributes or subscripts, call, compare, test membership, enter a function or close a loop iteration (a superset of where CPython 3.12 hands over the GIL)",
                "a started timer may expire at any later instant until cancel() has been called (threading.Timer semantics)"]
 REQUIRED_COUNTERS = ["schedules", "preempted_schedules", "timer_fired_between", "sn.judged", "cbf.instances_judged", "cbf.cancel_vs_expiry_races",
                      "pv.judged", "ls.requests_judged", "ls.reply_vs_request_races", "lock_waits"]
@@ -473,11 +473,7 @@ def one(spec, plan, policy, res, mode, log_from=None, instr_points=True):
 
 
 # ------------------------------------------------------------------------------------------------ driver
-# exploration modes (per scenario):
-#   sync   breadth-first over schedules with up to 3 preemptions placed at synchronisation operations only
-#          (lock acquire/release, timer start/cancel, transmission, actor start) -- the check-then-act windows
-#   instr  every single preemption at every shared-state instruction (k = 1), then pairs while the budget lasts
-#   random randomised schedules: change points with probability p per instruction, timers eager or lazy
+# exploration modes: see vf/explore.py
 BUDGET = {"quick": {"sync": 700, "instr": 500, "random": 200}, "thorough": {"sync": 12000, "instr": 6000, "random": 4000}}
 NSHARD = {"quick": {"sync": 2, "instr": 4, "random": 2}, "thorough": {"sync": 4, "instr": 8, "random": 4}}
 
@@ -495,105 +491,14 @@ def shards(tier, seed):
     return out
 
 
-def dfs(spec, res, mode, kmax, budget, sh, nsh, rng):
-    from collections import deque
-    instr = mode == "instr"
-    queue = deque([()])          # breadth first: every single preemption before any pair of preemptions
-    n = 0
-    first_level = []
-    while queue and n < budget:
-        plan = queue.popleft()
-        leaf = len(plan) >= kmax
-        last = plan[-1][0] if plan else -1
-        ctx = one(spec, plan, None, res, mode, log_from=None if leaf else last + 1, instr_points=instr)
-        n += 1
-        if leaf:
-            continue
-        s = ctx.sched
-        kids = []
-        for i in sorted(s.enabled_log):
-            if s.pre_log[i] >= kmax:
-                break
-            if not plan and i % nsh != sh:
-                continue
-            for alt in range(len(s.enabled_log[i])):
-                if s.devs.get(i, None) == alt:
-                    continue
-                # the default choice is not a deviation
-                if i not in s.devs and alt == default_of(s, i):
-                    continue
-                kids.append(plan + ((i, alt),))
-        if not plan:
-            res.observe_max(f"{mode}.first_level_points", len(s.enabled_log))
-            first_level = list(kids)
-        rng.shuffle(kids)        # sample uniformly when the budget ends inside a level
-        if len(queue) < 200000:
-            queue.extend(kids)
-    res.count(f"{mode}.schedules", n)
-    if not queue:
-        res.count(f"{mode}.shards_exhausted_up_to_k{kmax}")
-    else:
-        res.count(f"{mode}.shards_budget_limited")
-    return first_level
-
-
-def default_of(s, i):
-    return s.default_log.get(i)
-
-
-def pin_to_one_cpu():
-    """All threads of this worker hand control to each other one at a time: on a single CPU the hand-over is a plain
-    context switch instead of a cross-CPU wake-up (an order of magnitude less kernel time when 16 workers run)."""
-    import os
-    try:
-        cpus = sorted(os.sched_getaffinity(0))
-        os.sched_setaffinity(0, {cpus[int(os.environ.get("VERIF_SLOT", os.getpid())) % len(cpus)]})
-    except (AttributeError, OSError):
-        pass
-
-
 def run_shard(spec_, res):
-    pin_to_one_cpu()
+    from vf import explore
     spec, sh, nsh, tier, mode = spec_["spec"], spec_["shard"], spec_["nshards"], spec_["tier"], spec_["mode"]
-    budget = BUDGET[tier][mode]
     rng = random.Random(spec_["seed"] * 31 + sh * 7 + len(mode))
-    if mode == "sync":
-        dfs(spec, res, "sync", 3, budget, sh, nsh, rng)
-    elif mode == "instr":
-        first = dfs(spec, res, "instr", 1, budget, sh, nsh, rng)
-        # pairs of preemptions: a sampled first preemption (logged run), then sampled second preemptions after it
-        n = 0
-        pair_budget = budget // 2
-        while first and n < pair_budget:
-            plan = rng.choice(first)
-            ctx = one(spec, plan, None, res, "instr", log_from=plan[-1][0] + 1)
-            n += 1
-            s = ctx.sched
-            kids = [plan + ((i, alt),) for i in s.enabled_log for alt in range(len(s.enabled_log[i]))
-                    if alt != s.default_log[i] and s.pre_log[i] < 2]
-            for kid in rng.sample(kids, min(len(kids), 10)):
-                one(spec, kid, None, res, "instr")
-                n += 1
-        res.count("instr.pair_schedules", n)
-    else:
-        for _ in range(budget):
-            p = rng.choice((0.005, 0.02, 0.05, 0.15, 0.4))
-            eager = rng.choice((0.0, 0.0, 0.5, 0.9))       # probability of expiring a timer as soon as it is armed
-            state = {"timers_seen": 0}
 
-            def policy(en, cur_idx, sched, p=p, eager=eager, state=state):
-                n = 0
-                while rng.random() > p and n < 400:
-                    n += 1
-                sched.free_steps = n                      # the chosen actor then runs n points without asking
-                tim = [i for i, x in enumerate(en) if x[0] == "timer"]
-                if tim and len(sched.timers) > state["timers_seen"]:
-                    state["timers_seen"] = len(sched.timers)
-                    if rng.random() < eager:
-                        return tim[-1]
-                return rng.randrange(len(en))
-            one(spec, (), policy, res, "random")
-            res.count("random.schedules")
+    def run_one(plan, policy, mode_, log_from, instr_points):
+        return one(spec, plan, policy, res, mode_, log_from=log_from, instr_points=instr_points).sched
+    explore.explore(run_one, res, mode, BUDGET[tier][mode], sh, nsh, rng)
 
 
 def replay(case, res):
